@@ -124,6 +124,12 @@ func (c *Ctx) resolveX(v ssa.Value, e *env, strip bool) (ssa.Value, *env) {
 	if e == nil {
 		e = c.ctxEnv
 	}
+	// the folding cases below recurse into operands; a cyclic binding must not run away
+	c.resolveDepth++
+	defer func() { c.resolveDepth-- }()
+	if c.resolveDepth > 60 {
+		return v, e
+	}
 	for i := 0; i < 80; i++ {
 		if e != nil {
 			if p, ok := v.(*ssa.Parameter); ok && e.par != nil {
@@ -576,6 +582,29 @@ func constRange(v ssa.Value, depth int) (lo, hi int64, ok bool) {
 		first = false
 	}
 	return lo, hi, !first
+}
+
+// mentions: does value v (through a few levels of operands) refer to target?
+func mentions(v, target ssa.Value, depth int) bool {
+	if v == target {
+		return true
+	}
+	if depth > 5 {
+		return false
+	}
+	in, ok := v.(ssa.Instruction)
+	if !ok {
+		return false
+	}
+	if _, isPhi := v.(*ssa.Phi); isPhi {
+		return false
+	}
+	for _, op := range in.Operands(nil) {
+		if *op != nil && mentions(*op, target, depth+1) {
+			return true
+		}
+	}
+	return false
 }
 
 // foldCmp decides an ==/!= comparison whose operands are known along the path: two constants, or nil
